@@ -166,7 +166,7 @@ func initWorker() {
 func init() {
 	fw.Register(fw.Spec[Case]{
 		ID: "C16",
-		Rule: "seven case kinds. row: object i of a fixed ~210-object universe of near-collisions (equal numbers in every representation, values that differ but collide after " +
+		Rule: "seven case kinds. row: object i of a fixed 207-object universe of near-collisions (equal numbers in every representation, values that differ but collide after " +
 			"float conversion, pointer representations built twice, strings/characters differing in case, lists/vectors/hash tables/2-d arrays/instances built twice and differing in one leaf) " +
 			"against every object, all four predicates in both directions, every triple through each related pair, sxhash of each equal pair, sxhash of the same object again in a new form " +
 			"and after a garbage collection (exhaustive, same for every seed). " +
